@@ -83,7 +83,7 @@ func readPipe(p *lang.Process, name string) (any, error) {
 		return nil, err
 	}
 
-	fork := p.Fork(0)
+	fork := p.Fork(lang.F_PARENT_VARTABLE)
 	fork.Process.Stdin = pipe
 
 	dt := pipe.GetDataType()
@@ -102,7 +102,7 @@ func readVariable(p *lang.Process, name string) (any, error) {
 	}
 	dt := p.Variables.GetDataType(name)
 
-	fork := p.Fork(lang.F_CREATE_STDIN)
+	fork := p.Fork(lang.F_PARENT_VARTABLE | lang.F_CREATE_STDIN)
 	fork.Process.Stdin.SetDataType(dt)
 	fork.Process.Stdin.Write([]byte(s))
 
@@ -140,7 +140,7 @@ func readFile(p *lang.Process, fromFile string) (any, string, error) {
 			return nil, "", err
 		}
 
-		fork := p.Fork(0)
+		fork := p.Fork(lang.F_PARENT_VARTABLE)
 		fork.Process.Stdin = streams.NewReadCloser(f)
 
 		v, err = lang.UnmarshalData(fork.Process, dt)
